@@ -1,0 +1,22 @@
+//go:build !verif
+
+package interp
+
+// Synchronisation points of the arithmetic lexer/parser pair. They are only
+// observed by the verification harness, which builds with the tag "verif".
+const (
+	hkLexBefore = iota
+	hkLexAfter
+	hkRunStart
+	hkRunExitBegin
+	hkRunExitEnd
+	hkEmitBefore
+	hkEmitAfter
+	hkEmitCancel
+	hkSpawn
+	hkError
+	hkCancelClosed
+	hkEvalExit
+)
+
+func verifHook(*lexer, int) {}
